@@ -16,7 +16,8 @@ PARALLEL = True
 RULE = ("random graphs x caller metadata with: property entries carrying unit/name/description for written properties, stale entries for "
         "absent properties, wrong dtype/varlength in entries, stale axis ranges, every optional top-level field (extra, related_objects, "
         "display_hints, sphere, ellipsoid, track_node_props), axis type/unit/scale/scaled_unit/offset; structure validation on and off; "
-        "entry points write_arrays (tied to the Coq model through the store dump) and write_dicts (oracle only); zarr 2/3; "
+        "entry points write_arrays (tied to the Coq model through the store dump), write_dicts and geff.write through networkx / rustworkx with "
+        "axis_* override lists (each absent or with per-axis None entries; oracle only); zarr 2/3; "
         "non-trivial = at least one property written; distinct by structural input")
 EXHAUSTIVE_BLOCKS = []
 ASSUMPTIONS = c01.ASSUMPTIONS + ["axis coordinates are generated exactly representable (|x| < 2^40, multiples of 2^-10) so min/max are exact",
@@ -70,6 +71,45 @@ def generate(rng: random.Random, tier: str):
                "pre": "fresh", "validate": rng.random() < (0.5 if stale else 0.85), "overwrite": False, **g}
     for i in range(80 if tier == "quick" else 800):
         yield dict_case(rng)
+    for i in range(120 if tier == "quick" else 1500):
+        yield backend_case(rng)
+
+
+def backend_case(rng):
+    """geff.write through a graph library with axis_* override lists (each absent, or a list with per-axis None entries) and optional
+    caller metadata whose axes the overrides must replace; the stored axes must carry exactly the override values."""
+    n = rng.randint(1, 5)
+    ids = rng.sample(range(0, 300), n)
+    axn = rng.sample(["t", "z", "y", "x"], rng.randint(1, 3))
+    nodes = []
+    for i in ids:
+        d = {a: rng.randint(-40, 40) / 4 for a in axn}
+        if rng.random() < 0.5:
+            d["score"] = rng.randint(-5, 5) / 2
+        nodes.append([i, d])
+    edges = []
+    for _ in range(rng.randint(0, 3) if n >= 2 else 0):
+        a, b = rng.sample(ids, 2)
+        edges.append([[a, b], {"w": rng.randint(0, 8) / 2}])
+    types = [("time" if a == "t" else "space") if rng.random() < 0.8 else None for a in axn]
+
+    def lst(f, p_absent=0.35):
+        return None if rng.random() < p_absent else [f(i) for i in range(len(axn))]
+
+    ov = {"axis_names": axn,
+          "axis_types": None if rng.random() < 0.3 else types,
+          "axis_units": lst(lambda i: rng.choice([None, "second" if axn[i] == "t" else "micrometer"])),
+          "axis_scales": lst(lambda i: rng.choice([None, 0.5, 2.0, 1.0])),
+          "axis_offset": lst(lambda i: rng.choice([None, -1.5, 10.0, 0.0]))}
+    sc = ov["axis_scales"]
+    ov["scaled_units"] = None if sc is None or rng.random() < 0.5 else [
+        (rng.choice([None, "minute" if axn[i] == "t" else "nanometer"]) if sc[i] is not None else None) for i in range(len(axn))]
+    md = None
+    if rng.random() < 0.4:
+        md = {"directed": rng.random() < 0.5, "extra": {"who": "c10"},
+              "axes": [{"name": a, "offset": 7.0, "scale": 3.0, "min": 0.0, "max": 999.0} for a in axn[:1]]}
+    return {"kind": "write", "wf": True, "stale": False, "entry": rng.choice(["nx", "rx"]), "fmt": rng.choice([2, 3]), "nodes": nodes,
+            "edges": edges, "md": md, "ov": ov, "directed": rng.random() < 0.5, "validate": True}
 
 
 def dict_case(rng):
@@ -188,6 +228,8 @@ def run_impl(c):
         except Exception as e:
             obs["mdiff"] = None
         return obs
+    if c["entry"] in ("nx", "rx"):
+        return run_backend(c)
     from geff.core_io import write_dicts
 
     st = MemoryStore()
@@ -199,6 +241,50 @@ def run_impl(c):
         obs["mdiff"] = metadata_diff(stored_view(st), c["md"])
     except Exception as e:
         obs["res"] = ["err", exn_name(e), str(e)[:120]]
+    return obs
+
+
+def run_backend(c):
+    from zarr.storage import MemoryStore
+
+    import geff
+
+    st = MemoryStore()
+    obs = {}
+    try:
+        if c["entry"] == "nx":
+            import networkx as nx
+
+            G = nx.DiGraph() if c["directed"] else nx.Graph()
+            for i, d in c["nodes"]:
+                G.add_node(i, **d)
+            for (a, b), d in c["edges"]:
+                G.add_edge(a, b, **d)
+            kw = {}
+        else:
+            import rustworkx as rx
+
+            G = rx.PyDiGraph() if c["directed"] else rx.PyGraph()
+            idx = {i: G.add_node(dict(d)) for i, d in c["nodes"]}
+            for (a, b), d in c["edges"]:
+                G.add_edge(idx[a], idx[b], dict(d))
+            kw = {"node_id_dict": {v: k for k, v in idx.items()}}
+        md = None if c["md"] is None else gg.make_metadata(c["md"])
+        geff.write(G, st, metadata=md, zarr_format=c["fmt"], **{k: v for k, v in c["ov"].items() if v is not None}, **kw)
+        obs["res"] = ["ok"]
+        ov = c["ov"]
+        want_axes = []
+        for i, nm in enumerate(ov["axis_names"]):
+            ax = {"name": nm}
+            for f, key in (("type", "axis_types"), ("unit", "axis_units"), ("scale", "axis_scales"), ("scaled_unit", "scaled_units"),
+                           ("offset", "axis_offset")):
+                ax[f] = None if ov[key] is None else ov[key][i]
+            want_axes.append(ax)
+        caller = {"directed": c["directed"], "axes": want_axes, "nprops_md": {}, "eprops_md": {},
+                  "extra": (c["md"] or {}).get("extra")}
+        obs["mdiff"] = metadata_diff(stored_view(st), caller)
+    except Exception as e:
+        obs["res"] = ["err", exn_name(e), str(e)[:160]]
     return obs
 
 
@@ -220,12 +306,16 @@ def oracle(c, o):
 
 
 def nontrivial(c, o):
-    if c["entry"] == "write_dicts":
+    if c["entry"] in ("write_dicts", "nx", "rx"):
         return bool(c["nodes"])
     return bool(c["nprops"] or c["eprops"])
 
 
 def describe(c, o):
+    if c["entry"] in ("nx", "rx"):
+        ov = c["ov"]
+        return (f"{c['entry']}:v{c['fmt']}:axes={len(ov['axis_names'])}:" + "".join(k[5] if ov[k] is not None else "-" for k in
+                ("axis_types", "axis_units", "axis_scales", "axis_offset")) + ("S" if ov["scaled_units"] else "-") + f":md={c['md'] is not None}:{o['res'][0]}")
     if c["entry"] == "write_dicts":
         return f"write_dicts:v{c['fmt']}:N={len(c['nodes'])}:{o['res'][0]}"
     return (f"write_arrays:v{c['fmt']}:N={c['nids']['shape'][0]}:axes={len(c['md'].get('axes') or [])}:entries={len(c['md']['nprops_md'])}+{len(c['md']['eprops_md'])}"
